@@ -579,15 +579,42 @@ fn after_error_case(kind: Kind, crc: bool, fault: &Fault, first: SdOp) -> (Vec<(
     let mut card = Card::new(kind, default_csd(kind));
     card.fault = fault.clone();
     card.monitor = Some(Box::new(Monitor::new()));
+    if std::env::var("VERIF_TRACE").is_ok() {
+        card.trace = Some(Vec::new());
+    }
     let c = conv(card, crc);
     let r1 = exec(&c, first, 0);
+    if let Some(t) = c.card.borrow().trace.as_ref() {
+        println!("  [trace] first call ends at bus byte {}", t.len());
+    }
     {
-        let mut cb = c.card.borrow_mut();
-        cb.fault = Fault::None;
-        cb.horizon = cb.exchanges + 50_000_000;
+        c.card.borrow_mut().heal();
     }
     let r2 = exec(&c, SdOp::Read(2, 1), 1);
     let r3 = exec(&c, SdOp::Write(3, 1), 2);
+    if let Some(t) = c.card.borrow().trace.as_ref() {
+        // compact dump: runs of (ff,ff) are folded
+        let mut i = 0;
+        while i < t.len() {
+            let mut j = i;
+            while j < t.len() && t[j] == (0xFF, 0xFF) {
+                j += 1;
+            }
+            if j - i > 4 {
+                println!("  [trace] {:>6}: (ff/ff) x {}", i, j - i);
+                i = j;
+                continue;
+            }
+            let mut k = i;
+            let mut line = String::new();
+            while k < t.len() && k < i + 16 {
+                line.push_str(&format!("{:02x}/{:02x} ", t[k].0, t[k].1));
+                k += 1;
+            }
+            println!("  [trace] {:>6}: {}", i, line);
+            i = k;
+        }
+    }
     let mut cb = c.card.borrow_mut();
     let mon = cb.monitor.as_mut().unwrap();
     mon.finish();
@@ -840,9 +867,7 @@ fn run_faulty(kind: Kind, crc: bool, fault: Fault, inp: &Value) -> (Vec<Violatio
         let host_before = c.card.borrow().host_cmds.clone();
         // heal the card
         {
-            let mut card = c.card.borrow_mut();
-            card.fault = Fault::None;
-            card.horizon = card.exchanges + 50_000_000;
+            c.card.borrow_mut().heal();
         }
         if !during_init {
             c.sd.mark_card_uninit();
